@@ -308,7 +308,7 @@ def run_shard(ctx):
         f.choices = {"l1": [{"name": "a", "label": "A"}, {"name": "b", "label": "B"}]}
         judge(ctx, f, "table-list", f"table-list|{sk}|{what}")
     # one question name used in several groups/repeats (legal: names are unique per section), each copy with its own kind of default
-    kinds = [("static", "pending"), ("dynamic", "uuid()"), ("static", "unknown"), ("dynamic", "${src} + 1"), ("none", None)]
+    kinds = [("static", "pending"), ("dynamic", "uuid()"), ("static", "unknown"), ("dynamic", "${src} + 1"), ("none", None), ("trigger", "concat('t1', ${src})"), ("trigger", "'t2'")]
     for k, combo in enumerate(itertools.permutations(kinds, 3)):
         n += 1
         if not ctx.mine(n) or (ctx.tier == "quick" and k % 4):
@@ -318,9 +318,16 @@ def run_shard(ctx):
         for j, (kd, dv) in enumerate(combo):
             sk = ["group", "repeat", "group"][(j + k) % 3]
             cells = {"label": "code"}
-            if dv is not None:
+            if kd == "trigger":
+                cells.update({"calculation": dv, "trigger": "${src}"})
+            elif dv is not None:
                 cells["default"] = dv
             f.survey.append(Row(sk, f"begin {sk}", f"sec{j}", {"label": f"S{j}"}, [Row("q", "text", "code", cells), Row("q", "text", f"pad{j}", {"label": "p"})]))
+        o_ = drive.convert_form(f)
+        if not o_.ok:
+            ctx.case(sig=f"same-name-refused|{k}")
+            ctx.viol("same-name:valid-form-refused", f"a question name used once per section ({[x[0] for x in combo]}): {o_.brief()[:200]}", common.witness(f, klass="same-name"))
+            continue
         judge(ctx, f, "same-name", f"same-name|{'+'.join(x[0] for x in combo)}|{k % 3}")
     # one trigger, several targets in a row, some of them without a calculation (the action then clears the field: no value attribute)
     for k, pattern in enumerate(itertools.product(("calc", "nocalc"), repeat=3)):
